@@ -31,7 +31,7 @@ def gap_len(rng, t):
     return rng.choice([1, 10, 10, 100, 200, 200, 200, int(t * rng.uniform(0.1, 5)) + 1, int(t * rng.uniform(0.02, 0.3)) + 1])
 
 
-def gen_input(rng, t, n_scaff=None, mode=None, strands=None, max_contigs=8, max_texels=60, name_prefix="scaffold_", terminal_gaps=False, small_contigs=False):
+def gen_input(rng, t, n_scaff=None, mode=None, strands=None, max_contigs=8, max_texels=60, name_prefix="scaffold_", terminal_gaps=False, small_contigs=False, gap_only=False):
     """Returns (scaffolds, labels).
 
     mode 'fasta'  : contig name = scaffold name, contig coordinates = scaffold
@@ -105,7 +105,7 @@ def gen_input(rng, t, n_scaff=None, mode=None, strands=None, max_contigs=8, max_
                 rows.append(["G", gap_len(rng, t), "scaffold"])
                 labels.add("in:trailing-gap")
         scaffolds.append([name, rows])
-    if terminal_gaps and mode == "fasta" and rng.random() < 0.12:
+    if (terminal_gaps and mode == "fasta" and rng.random() < 0.12) or (gap_only and not terminal_gaps and rng.random() < gap_only):
         # a FASTA record made only of N: a scaffold without any contig
         k = rng.randint(0, len(scaffolds))
         scaffolds.insert(k, [f"{name_prefix}N{len(scaffolds) + 1}", [["G", rng.choice([1, 50, 200, int(3 * t) + 1]), "scaffold"]]])
